@@ -236,4 +236,19 @@ theorem fit_min_factor_sum_pos_b (a b c : VBox) (avail : Rat) (hb : b.inner = no
 example : ¬ (70 : Rat) > (VBox.mk none 0 0 0 20 40).outerMax + (VBox.mk none 0 0 0 20 40).outerMax := by
   simp [VBox.outerMax, VBox.sugar]; grind
 
+/-- **css-page-3 §5.3.2: the centre box is resolved against the imaginary box "AC", twice the larger of its two
+neighbours — so its size does not depend on which side the larger neighbour is**: exchanging A and C leaves the
+resolved B unchanged, for all boxes and every available size. -/
+theorem resolve_b_symmetric (a b c : VBox) (avail : Rat) : varResolveB a b c avail = varResolveB c b a avail := by
+  have hmax : ∀ x y : Rat, max x y = max y x := by
+    intro x y; simp only [Rat.max_def]; split <;> split <;> grind
+  unfold varResolveB
+  simp only [hmax a.outerMax c.outerMax, hmax a.outerMin c.outerMin]
+
+/-- Non-vacuity: A narrow, C wide with wrappable content — the case in which reading C's *min*-content size for the
+maximum of "AC" (seeded change C14-10) changes B: B is 70/3 wide whichever side the wide neighbour is on. -/
+example : (varResolveB ⟨none, 0, 0, 0, 10, 20⟩ ⟨none, 0, 0, 0, 10, 40⟩ ⟨none, 0, 0, 0, 10, 100⟩ 150).inner =
+    (varResolveB ⟨none, 0, 0, 0, 10, 100⟩ ⟨none, 0, 0, 0, 10, 40⟩ ⟨none, 0, 0, 0, 10, 20⟩ 150).inner := by
+  decide +kernel
+
 end Wp.C14
